@@ -950,6 +950,24 @@ def run(ctx: common.Ctx):
   lap('primitive-equation correspondence + probes')
   ctx.notes.append('worst measured / allowed per probe: ' +
                    ', '.join(f'{k}={v:.1e}' for k, v in sorted(WORST.items())))
+  # review B, C05 findings 7 and 8: what the oracle and the validated laws are NOT
+  ctx.notes.append('oracle scope (cloud class): the polynomial-algebra oracle (c05_pe.py) and the balanced-state '
+                   'builder of the cloud class apply the condensate loading -(q_l + q_i) to T - T_ref only '
+                   '(tv = T(1 + eps q) - (T - T_ref)(q_l + q_i)): this MIRRORS MoistPrimitiveEquationsWithCloudMoisture.'
+                   '_virtual_temperature, it is not the true continuous equation. The missing share '
+                   '-R T_ref (q_l + q_i) grad ln ps of the pressure-gradient force is the recorded C04 finding '
+                   '(tref-dependence:cloud:*:momentum); for the dry and moist classes (and the cloud class with '
+                   'q_l = q_i = 0) the oracle is the independent sigma-coordinate equations')
+  ctx.notes.append('law validation vs probes: ConstLaws.toNodal_one / toModal_one are validated at 1e-7 for one = '
+                   '_CONSTANT_NORMALIZATION_FACTOR (an 8-digit literal of the code; the theorems use the laws exactly), '
+                   'while the T5.1 probes build the constant field with the exact to_modal(1)[0,0]: the validated '
+                   'object and the probe object differ by 2e-8 relative')
+  ctx.notes.append('hypotheses of the claim: T5.1 needs clip(lap h) = lap h (and to_modal(to_nodal lap h) = lap h for '
+                   'the moist classes): otherwise the residual is g (lap h - clip lap h) in the divergence tendency '
+                   '(rest_total_dry; replayed by the `unclipped` variant); T5.3 multi_layer needs the solved potentials to '
+                   'be zonal (hzonal) and clip lap(D Phi) = lap(D Phi) (hclip), both validated on the factory output each '
+                   'run; zonal_flow_steady assumes the vanishing of the discrete residual (zonal_flow_steady_iff_residual_'
+                   'zero): its vanishing for solid-body rotation is the probe `solid-body`, not a theorem')
   return ctx.finish(RULE, 'theorems are about the Lean models Dino.Dynamics / Dino.DynamicsSW; the horizontal '
                     'operators are abstract (laws are hypotheses, validated numerically on real grids each run); '
                     'agreement with the continuous equations on general low-degree states is an analytic-oracle test')
